@@ -72,20 +72,23 @@ def confirm(mid):
 
 
 def run(mid, props):
+    """Applies the seeded change to a scratch worktree of /repo (never to /repo itself), runs the quick checks
+    against it (VERIF_REPO) and removes the worktree."""
     d = os.path.join(ROOT, "seeded", mid)
     pid = mid.split(".")[0]
     props = props or [pid]
-    rc, out = sh("git -C /repo status --porcelain")
-    if out.strip():
-        print("refusing: /repo is dirty"); return
-    rc, out = sh("git -C /repo apply %s" % os.path.join(d, "patch.diff"))
-    if rc != 0:
-        print(mid, "PATCH DOES NOT APPLY to the current /repo:", out.strip()[:300])
-        return
+    wt = "/root/scratch/mutwt_" + mid
+    sh("git -C /repo worktree remove --force %s" % wt)
+    shutil.rmtree(wt, ignore_errors=True)
+    rc, out = sh("git -C /repo worktree add -q --detach %s HEAD" % wt)
     results = {}
     try:
+        rc, out = sh("git apply %s" % os.path.join(d, "patch.diff"), cwd=wt)
+        if rc != 0:
+            print(mid, "PATCH DOES NOT APPLY to the current /repo:", out.strip()[:300])
+            return
         for p in props:
-            rc, out = sh("./check %s --tier quick" % p, cwd=ROOT, timeout=3600)
+            rc, out = sh("VERIF_REPO=%s ./check %s --tier quick" % (wt, p), cwd=ROOT, timeout=3600)
             lines = [l for l in out.splitlines() if l.startswith("VIOLATION") or l.startswith("KNOWN")]
             results[p] = {"exit": rc, "violation_lines": lines[:3], "summary": out.strip().splitlines()[-1] if out.strip() else ""}
             if lines:
@@ -96,7 +99,9 @@ def run(mid, props):
                     except Exception:
                         results[p]["first_replay"] = open(rp.group(1)).read()[:500]
     finally:
-        sh("git -C /repo checkout -- . && git -C /repo clean -fdq")
+        sh("git -C /repo worktree remove --force %s" % wt)
+        shutil.rmtree(wt, ignore_errors=True)
+        sh("git -C /repo worktree prune")
     mp = os.path.join(d, "meta.json")
     m = json.load(open(mp))
     m.setdefault("checks", {}).update({p: {"exit": r["exit"], "violation_lines": r["violation_lines"], "summary": r["summary"]} for p, r in results.items()})
